@@ -1107,7 +1107,7 @@ def configs_a(ctx: Ctx) -> list[dict[str, Any]]:
         add([2, 1], init=init)
         add([1, 2], init=init, env=["crash"], bound=1)
         add([1, 1, 1], init=init, bound=2 if init == "none" else 1)
-        add([1, 1, 2], init=init, bound=1)
+        add([1, 1, 2], init=init, bound=1 if init == "none" else 0)
         add([1, 1], init=init, bound=2, trace=True)
         add([1, 2], init=init, bound=1, trace=True)
         add([2, 1], init=init, bound=1, trace=True)
